@@ -327,3 +327,17 @@ Proof.
   unfold table_khead, table_kbody, table_vhead, table_vbody, table_block, table_step in *.
   repeat split; nia.
 Qed.
+
+(* the four sites of Tree.c that place things behind the key agree, for every key size *)
+Lemma tree_sites_agree :
+  forall H w ks vs, 0 < w ->
+    tree_kbody H w + ks <= tree_site_vhead H w ks /\
+    tree_site_vhead H w ks + H = tree_site_vbody H w ks /\
+    tree_site_vbody H w ks + vs <= tree_site_block H w ks vs /\
+    tree_site_copy_end H w ks vs = tree_site_block H w ks vs.
+Proof.
+  intros H w ks vs Hw. pose proof (round_up_ge w ks Hw) as R.
+  unfold tree_kbody, tree_site_vhead, tree_site_vbody, tree_site_block, tree_site_copy_end, ks_at,
+    hdr_tree_alloc_block_kround, hdr_tree_alloc_vhead_kround, hdr_tree_val_kround, hdr_tree_rem_copy_kround.
+  repeat split; lia.
+Qed.
